@@ -1,7 +1,7 @@
 (* C07 - best, worst and tournament selection apply the intended selection pressure. *)
 From Coq Require Import List ZArith QArith.
 Import ListNotations.
-From UEC Require Import Base.Dist Ec.Select Ec.SelectProps.
+From UEC Require Import Base.Dist Ec.Select Ec.SelectProps Ec.LexProps Ec.TournamentCor.
 
 Theorem C07_best_is_maximal : forall pol pop i,
   possible (select pol pop SBest) (inl i) ->
@@ -36,6 +36,18 @@ Theorem C07_cdf : forall pol pop k v,
   == qnat (binom (count (fun j => (ikey pol pop j <=? v)%Z) (seq 0 (length pop))) k) / qnat (binom (length pop) k).
 Proof. exact tournament_cdf. Qed.
 Print Assumptions C07_cdf.
+
+(* a tournament of size 1 is uniform random choice: every individual with probability exactly 1/n *)
+Theorem C07_size_1_is_uniform : forall pol pop i, (i < length pop)%nat ->
+  prob (select pol pop (STournament 1)) (is_idx i) == 1 / qnat (length pop).
+Proof. exact tournament_1_uniform. Qed.
+Print Assumptions C07_size_1_is_uniform.
+
+(* a tournament over the whole population is best selection: the same distribution over outcomes *)
+Theorem C07_size_n_is_best : forall pol pop P,
+  prob (select pol pop (STournament (length pop))) P == prob (select pol pop SBest) P.
+Proof. exact tournament_n_is_best. Qed.
+Print Assumptions C07_size_n_is_best.
 
 Example C07_example :
   (* four individuals 3 < 5 = 5 < 8, tournament of 2: P(winner <= 5) = C(3,2)/C(4,2) = 1/2 *)
